@@ -687,7 +687,16 @@ r_expand(const Expansion &expansion, const vector_string &args,
          bool expand_undefined, const Ignores &ignores) const {
   std::string result;
 
+  // True while everything that the current node is to be pasted onto (the
+  // operands of the ## operators to its left) has come out empty.  Pasting
+  // onto nothing yields the right operand by itself; it must not end up glued
+  // to whatever happens to precede the empty operand.
+  bool left_operand_empty = false;
+
   for (const ExpansionNode &node : expansion) {
+    const bool paste = node._paste && !left_operand_empty;
+    const size_t size_before = result.size();
+
     if (node._parm_number >= 0) {
       int i = node._parm_number;
 
@@ -720,7 +729,7 @@ r_expand(const Expansion &expansion, const vector_string &args,
       }
 
       if (!subst.empty()) {
-        if (result.empty() || node._paste || result.back() == '(') {
+        if (result.empty() || paste || result.back() == '(') {
           result += subst;
         } else {
           result += ' ';
@@ -729,7 +738,7 @@ r_expand(const Expansion &expansion, const vector_string &args,
       }
     }
     if (!node._str.empty()) {
-      if (result.empty() || node._paste || node._str[0] == ',' || node._str[0] == ')') {
+      if (result.empty() || paste || node._str[0] == ',' || node._str[0] == ')') {
         result += node._str;
       } else {
         result += ' ';
@@ -744,13 +753,17 @@ r_expand(const Expansion &expansion, const vector_string &args,
       if (node._stringify) {
         nested_result = stringify(nested_result);
       }
-      if (result.empty() || node._paste) {
+      if (result.empty() || paste) {
         result += nested_result;
       } else {
         result += ' ';
         result += nested_result;
       }
     }
+
+    const bool came_out_empty = (result.size() == size_before);
+    left_operand_empty = node._paste ? (left_operand_empty && came_out_empty)
+                                     : came_out_empty;
   }
 
   return result;
